@@ -376,6 +376,18 @@ func (c *FnCtx) checkOGKeys(ct *FuncContract, og *ogSpec) {
 	}
 	sort.Strings(names)
 	for k := range og.afters {
+		if !strings.Contains(k, "#") {
+			// base key without ordinal: valid if some operation has that base
+			found := false
+			for _, n := range names {
+				if strings.HasPrefix(n, k+"#") {
+					found = true
+				}
+			}
+			if found {
+				continue
+			}
+		}
 		if strings.HasSuffix(k, "(*)") {
 			found := false
 			for _, n := range names {
@@ -489,6 +501,13 @@ func (c *FnCtx) ogApplyAfters(fr *Frame, st *State, key string, g Term, results 
 		if w := c.og.afters[key[:i]+"(*)"]; len(w) > 0 {
 			as = append(append([]ogAssign{}, as...), w...)
 			c.og.usedKey[key[:i]+"(*)"] = true
+		}
+	}
+	if i := strings.LastIndex(key, "#"); i > 0 {
+		// `after selrecv(done(ctx)): ...` (no ordinal): every operation with that base key
+		if w := c.og.afters[key[:i]]; len(w) > 0 {
+			as = append(append([]ogAssign{}, as...), w...)
+			c.og.usedKey[key[:i]] = true
 		}
 	}
 	if len(as) == 0 {
